@@ -1666,6 +1666,16 @@ func (p *parser) hoistSymbols(scope *js_ast.Scope) {
 				if existingMember, ok := s.Members[symbol.OriginalName]; ok {
 					existingSymbol := &p.symbols[existingMember.Ref.InnerIndex]
 
+					// A sloppy-mode block-level function is not hoisted if its name is
+					// also the name of a parameter of the enclosing function. See "B.3.3.1
+					// Changes to FunctionDeclarationInstantiation" in the specification.
+					if isSloppyModeBlockLevelFnStmt && s.Kind == js_ast.ScopeFunctionBody && existingSymbol.Kind != ast.SymbolArguments {
+						if arg, ok := s.Parent.Members[symbol.OriginalName]; ok && arg.Ref == existingMember.Ref {
+							delete(p.hoistedRefForSloppyModeBlockFn, originalMemberRef)
+							continue nextMember
+						}
+					}
+
 					// We can hoist the symbol from the child scope into the symbol in
 					// this scope if:
 					//
